@@ -385,7 +385,9 @@ func (u *Unit) atomicTarget(e ast.Expr) ast.Expr {
 
 func (u *Unit) atomicRead(st *State, ptrExpr ast.Expr, fn *types.Func) *Val {
 	if lv := u.atomicTarget(ptrExpr); lv != nil {
+		u.inAtomic++
 		v := u.eval(st, lv)
+		u.inAtomic--
 		u.atomicAccess(st, lv, "read")
 		return v
 	}
@@ -396,7 +398,9 @@ func (u *Unit) atomicRead(st *State, ptrExpr ast.Expr, fn *types.Func) *Val {
 func (u *Unit) atomicWrite(st *State, ptrExpr ast.Expr, v *Val) {
 	if lv := u.atomicTarget(ptrExpr); lv != nil {
 		u.atomicAccess(st, lv, "write")
+		u.inAtomic++
 		u.assign(st, lv, v)
+		u.inAtomic--
 		return
 	}
 	p := u.eval(st, ptrExpr)
@@ -406,6 +410,8 @@ func (u *Unit) atomicWrite(st *State, ptrExpr ast.Expr, v *Val) {
 func (u *Unit) atomicMethodRead(st *State, x *ast.CallExpr) *Val {
 	sel := ast.Unparen(x.Fun).(*ast.SelectorExpr)
 	u.atomicAccess(st, sel.X, "read")
+	u.inAtomic++
+	defer func() { u.inAtomic-- }()
 	return u.eval(st, sel.X)
 }
 
@@ -414,7 +420,9 @@ func (u *Unit) atomicMethodWrite(st *State, x *ast.CallExpr, v *Val) {
 	u.atomicAccess(st, sel.X, "write")
 	nv := *v
 	nv.T = u.typeOf(sel.X)
+	u.inAtomic++
 	u.assign(st, sel.X, &nv)
+	u.inAtomic--
 }
 
 // atomicAccess counts atomic accesses per field for the atomic-once device.
